@@ -341,6 +341,7 @@ CALLS = {
     "generate_a": lambda fa, p: _gen(fa, p.parsed_a),
     "generate_b_raw": lambda fa, p: _gen(fa, p.raw_b),
     "generate_node": lambda fa, p: _gen(fa, p.parsed_node, 1),
+    "generate_piecewise": lambda fa, p: _gen(fa, p.parent_piecewise, 2),
     "read_a_as_aliased": lambda fa, p: fa.schemaless_reader(io.BytesIO(_enc("a")), p.raw_a, p.reader_aliased),
     "read_a_as_aliased_parsed": lambda fa, p: fa.schemaless_reader(io.BytesIO(_enc("a")), p.parsed_a, p.reader_aliased_parsed),
     "container_read_a_as_aliased": lambda fa, p: list(fa.reader(io.BytesIO(_container_const(fa)), p.reader_aliased)),
